@@ -216,6 +216,12 @@ func (s *eqState) eq(a, b reflect.Value, path string) bool {
 			if a.IsNil() && b.IsNil() {
 				return true
 			}
+			// nil and empty containers are identified, also behind a pointer
+			for _, x := range []reflect.Value{a, b} {
+				if !x.IsNil() && (x.Elem().Kind() == reflect.Map || x.Elem().Kind() == reflect.Slice) && x.Elem().Len() == 0 {
+					return true
+				}
+			}
 			return s.fail(path, "pointer nil=%v decoded nil=%v", a.IsNil(), b.IsNil())
 		}
 		k := [2]unsafe.Pointer{unsafe.Pointer(a.Pointer()), unsafe.Pointer(b.Pointer())}
@@ -315,6 +321,8 @@ func clip(s string) string {
 func SameSharing(orig, dec interface{}) string {
 	ab := map[unsafe.Pointer]unsafe.Pointer{}
 	ba := map[unsafe.Pointer]unsafe.Pointer{}
+	mab := map[unsafe.Pointer]unsafe.Pointer{}
+	mba := map[unsafe.Pointer]unsafe.Pointer{}
 	msg := ""
 	var walk func(a, b reflect.Value, path string) bool
 	walk = func(a, b reflect.Value, path string) bool {
@@ -372,6 +380,23 @@ func SameSharing(orig, dec interface{}) string {
 		case reflect.Map:
 			if a.Type().Key().Kind() == reflect.Interface {
 				return true
+			}
+			// maps are reference values in Go: a non-empty map reached over two paths must stay ONE map
+			if a.Len() > 0 && b.Len() > 0 {
+				pa, pb := unsafe.Pointer(a.Pointer()), unsafe.Pointer(b.Pointer())
+				if x, ok := mab[pa]; ok {
+					if x != pb {
+						msg = path + ": paths that shared one map in the original lead to distinct maps after decode"
+						return false
+					}
+					return true
+				}
+				if _, ok := mba[pb]; ok {
+					msg = path + ": distinct maps in the original became one map after decode"
+					return false
+				}
+				mab[pa] = pb
+				mba[pb] = pa
 			}
 			for _, k := range a.MapKeys() {
 				bv := b.MapIndex(k)
